@@ -68,7 +68,25 @@ def parse_macros(text: str) -> dict[str, int]:
             if vals["THERMAL"]:
                 vals["IDX_TGAS"] = vals["NSPECIES"]
     vals["__dups__"] = dup  # type: ignore
+    # a macro whose replacement text is an expression must be one parenthesised group (or it changes meaning next to * and /)
+    def one_group(v):
+        v = v.strip()
+        if not v.startswith("("):
+            return False
+        depth = 0
+        for i, ch in enumerate(v):
+            depth += ch == "("
+            depth -= ch == ")"
+            if depth == 0:
+                return i == len(v) - 1
+        return False
+    vals["__unparenthesised__"] = sorted(n for n, v in plain.items() if re.search(r"[-+*/|&<>]|\s", v.strip()) and not one_group(v))  # type: ignore
     return vals
+
+
+def batch_strides(text: str) -> dict:
+    """`int yistart = cur * NEQUATIONS;` style offsets of the batched GPU kernels: {offset name: stride macro text}"""
+    return {m.group(1): m.group(2).strip() for m in re.finditer(r"\bint\s+(\w+start)\s*=\s*cur\s*\*\s*([^;]+);", strip_comments(text))}
 
 
 class SumParser:
